@@ -231,7 +231,7 @@ func TestC19(t *testing.T) {
 	rec.Flush()
 	total := 6000 / cfg.NShards
 	if cfg.Thorough() {
-		total = 60000 / cfg.NShards
+		total = 400000 / cfg.NShards
 	}
 	rapidLoop(t, rec, "hist", total, 100, dl, func(rt *rapid.T) *failure {
 		var ops []gOp
